@@ -131,9 +131,27 @@ func (w *JWorld) GenJText(c *simrt.Chooser, doc *JDoc, v int, includes []string)
 		lines = append(lines, GenTxn(c, c.Choose("day", 300), w.Pools)...)
 		lines = append(lines, line(""))
 	}
+	// every document defines the payee "tpl d<d>" with a posting template that
+	// names the version ...
+	tplPayee := fmt.Sprintf("tpl d%d", doc.No)
+	tplAcct := fmt.Sprintf("tp:d%d:v%d", doc.No, v)
+	lines = append(lines,
+		line("2024-02-01 "+tplPayee, Occ{Kind: "payee", Name: tplPayee, Start: 11, End: 11 + len(tplPayee)}),
+		line("    "+tplAcct+"    1 TPL", Occ{Kind: "account", Name: tplAcct, Start: 4, End: 4 + len(tplAcct)}),
+		line("    tp:sink", Occ{Kind: "account", Name: "tp:sink", Start: 4, End: 11}),
+		line(""))
 	// a transaction being typed: header of the stamp payee followed by an empty
 	// line, which is where inline completion offers the payee's posting template
 	lines = append(lines, line("2024-03-01 "+stampPayee, Occ{Kind: "payee", Name: stampPayee, Start: 11, End: 11 + len(stampPayee)}), line(""))
+	// ... and starts a transaction for the template payee of every OTHER
+	// document: the ghost text offered there comes from another file of the tree
+	for k := 1; k <= len(jPaths); k++ {
+		if k == doc.No {
+			continue
+		}
+		other := fmt.Sprintf("tpl d%d", k)
+		lines = append(lines, line(fmt.Sprintf("2024-03-%02d %s", 1+k, other), Occ{Kind: "payee", Name: other, Start: 11, End: 11 + len(other)}), line(""))
+	}
 	var b strings.Builder
 	for _, l := range lines {
 		b.WriteString(l.Text)
@@ -304,6 +322,17 @@ func (w *JWorld) ExtWrite(doc *JDoc, v int) {
 	doc.DiskMark = v
 	doc.DiskLines = doc.VerLines[v]
 	doc.DiskIncludes = append([]string(nil), doc.VerIncs[v]...)
+}
+
+// GhostLines lists the empty lines after the headers of transactions being typed.
+func (d *JDoc) GhostLines() []int {
+	var out []int
+	for i := 1; i < len(d.Lines); i++ {
+		if d.Lines[i].Text == "" && strings.HasPrefix(d.Lines[i-1].Text, "2024-03-") {
+			out = append(out, i)
+		}
+	}
+	return out
 }
 
 // OccAt draws a position on an occurrence of the document (or anywhere).
